@@ -26,6 +26,7 @@ type SwarmConfig struct {
 	Horizon            int                `json:"horizon"`
 	MaxBlockTxs        int                `json:"max_block_txs"`
 	Replica            bool               `json:"replica"`
+	Shadow             bool               `json:"shadow"`
 	RestartEveryHeight bool               `json:"restart_every_height"`
 	KeepBlocks         bool               `json:"-"`
 	Verbose            bool               `json:"-"`
